@@ -246,6 +246,23 @@ func Build(scratch string, race bool) (*Result, error) {
 	if err := os.WriteFile(filepath.Join(rtDir, "verif_sim.go"), rtExtra, 0o644); err != nil {
 		return nil, err
 	}
+	// R3b: goroutines outside a bubble (watchdog, scavenger, timers on the real
+	// clock) must not take the runnext slot while a simulation runs: that kicks
+	// a bubble goroutine to the queue tail and reorders the simulated schedule
+	// as a function of real time.
+	procSrc, err := os.ReadFile(filepath.Join(goroot, "src/runtime/proc.go"))
+	if err != nil {
+		return nil, err
+	}
+	const procPat = "if randomizeScheduler && next && randn(2) == 0 {"
+	if bytes.Count(procSrc, []byte(procPat)) != 1 {
+		return nil, fmt.Errorf("R3b: pattern %q does not occur exactly once in runtime/proc.go", procPat)
+	}
+	procOut := bytes.Replace(procSrc, []byte(procPat), []byte("if (randomizeScheduler && next && randn(2) == 0) || (next && verifSelectState != 0 && gp.bubble == nil) {"), 1)
+	if err := os.WriteFile(filepath.Join(rtDir, "proc.go"), procOut, 0o644); err != nil {
+		return nil, err
+	}
+	overlay[filepath.Join(goroot, "src/runtime/proc.go")] = filepath.Join(rtDir, "proc.go")
 	overlay[filepath.Join(goroot, "src/runtime/select.go")] = filepath.Join(rtDir, "select.go")
 	overlay[filepath.Join(goroot, "src/runtime/verif_sim.go")] = filepath.Join(rtDir, "verif_sim.go")
 
